@@ -1,7 +1,7 @@
 SPECIFICATION Spec
 CONSTANTS MaxDec = 6
   MaxFrames = 12
-  MaxGo = 3
+  MaxGo = 5
 VIEW View
 CONSTRAINT Collect
 POSTCONDITION PostShared
